@@ -59,6 +59,9 @@ struct Scenario {
     window: u64,
     /// park the subscription task at its n-th history batch (1-based) and confirm everything meanwhile
     park_at_batch: Option<u64>,
+    /// confirm every transaction at once while the consumer is stalled: with more than 1000 events (the capacity of
+    /// the broadcast ring) the subscription falls behind (Lagged) and has to re-read history
+    burst: bool,
     seed: u64,
 }
 
@@ -114,6 +117,16 @@ async fn run(sc: &Scenario, cluster: &kameo::actor::ActorRef<sierradb_cluster::C
         confirmation_versions: t.evs.iter().map(|e| e.seq + 1).collect(),
         confirmation_count: 2,
     };
+    if sc.burst {
+        // let the subscription deliver up to its window, then stall the consumer and confirm everything
+        tokio::time::sleep(Duration::from_millis(50)).await;
+        while next_confirm < txs.len() {
+            w += txs[next_confirm].evs.len() as u64;
+            out.push(json!({"e": "confirm", "w": w}));
+            cluster.ask(confirm_one(&txs[next_confirm])).await.map_err(|e| format!("ConfirmTransaction failed: {e}"))?;
+            next_confirm += 1;
+        }
+    }
     loop {
         // the scenario that parks the history read: once parked, confirm everything, then let it go
         if sc.park_at_batch.is_some() && gate.st.lock().unwrap().1 {
@@ -212,17 +225,23 @@ pub async fn subs_cmd(rep: &mut Report, out_path: &str) {
     for kind in [Kind::Partition, Kind::Stream, Kind::Streams, Kind::Partitions] {
         for (confirmed, from, window) in [(0usize, 0u64, 2u64), (3, 0, 1), (3, 2, 50), (8, 1, 3)] {
             seed += 1;
-            scenarios.push(Scenario { name: format!("{kind:?} mixed confirmed={confirmed} from={from} window={window}"), kind, shape: mixed.clone(), confirmed, from, window, park_at_batch: None, seed });
+            scenarios.push(Scenario { name: format!("{kind:?} mixed confirmed={confirmed} from={from} window={window}"), kind, shape: mixed.clone(), confirmed, from, window, park_at_batch: None, burst: false, seed });
         }
         // history longer than one batch (50 commits), watermark advanced while it is being read
         for park in [1u64, 2] {
             seed += 1;
-            scenarios.push(Scenario { name: format!("{kind:?} long park@{park}"), kind, shape: long_a.clone(), confirmed: 30, from: 0, window: 1000, park_at_batch: Some(park), seed });
+            scenarios.push(Scenario { name: format!("{kind:?} long park@{park}"), kind, shape: long_a.clone(), confirmed: 30, from: 0, window: 1000, park_at_batch: Some(park), burst: false, seed });
+        }
+        // more events than the broadcast ring holds, confirmed in one burst while the consumer is stalled
+        if kind == Kind::Partition || (!quick && kind == Kind::Stream) {
+            seed += 1;
+            let shape: Vec<(&'static str, usize)> = (0..1150).map(|i| if i % 13 == 6 { ("b", 1) } else { ("a", 1) }).collect();
+            scenarios.push(Scenario { name: format!("{kind:?} burst of 1150 over the ring"), kind, shape, confirmed: 3, from: 0, window: 4, park_at_batch: None, burst: true, seed });
         }
         if !quick {
             for (confirmed, window) in [(10usize, 5u64), (55, 7), (70, 3)] {
                 seed += 1;
-                scenarios.push(Scenario { name: format!("{kind:?} long confirmed={confirmed} window={window}"), kind, shape: long_a.clone(), confirmed, from: 0, window, park_at_batch: None, seed });
+                scenarios.push(Scenario { name: format!("{kind:?} long confirmed={confirmed} window={window}"), kind, shape: long_a.clone(), confirmed, from: 0, window, park_at_batch: None, burst: false, seed });
             }
         }
     }
@@ -231,7 +250,7 @@ pub async fn subs_cmd(rep: &mut Report, out_path: &str) {
     let mut records = 0u64;
     for sc in &scenarios {
         rep.eval(1);
-        rep.class(format!("{:?} park={:?} long={}", sc.kind, sc.park_at_batch, sc.shape.len() > 20));
+        rep.class(format!("{:?} park={:?} long={} burst={}", sc.kind, sc.park_at_batch, sc.shape.len() > 20, sc.burst));
         let mut out = vec![];
         let res = run(sc, &cluster, &root, &gate, &mut out).await;
         {
